@@ -76,8 +76,9 @@ EXHAUSTIVE = True
 EXHAUSTIVE_SCOPE = {
     "quick": "api: texts over {a,\\n} len<=2 x all cursors x every single op; keys: every bound key once from 5 "
              "editor states x 3 documents",
-    "thorough": "api: texts over {a,\\n,世} len<=3 x all cursors x every single op; keys: every ordered pair of "
-                "bound keys from Vi navigation, Vi insert and Emacs states",
+    "thorough": "api: texts over {a,\\n,世} len<=3 x all cursors x every single op; keys: every bound key once "
+                "from 5 editor states x 3 documents, and every ordered pair over 116 keys (all named keys + 48 "
+                "printable command keys) from Vi navigation, and named-first pairs from Vi insert and Emacs",
 }
 TRUSTED = ["harness/c05.py + c05_editor.py: the tracing Buffer subclass logs every call of a state-writing primitive "
            "(outermost only) and the state after it; compares with the Lean model line by line",
@@ -683,6 +684,22 @@ def run_keys(case):
 # =====================================================================================
 # plugin interface
 # =====================================================================================
+# Key sessions are executed ONCE per run, inside `cases()` (worker pool): the worker drives the real
+# editor, pipes the API calls it logged through the compiled Lean driver, compares the two line lists
+# and keeps only the verdict (`_PRE`).  `model_lines` / `impl_lines` hand the full line lists to
+# core.py only for sessions that diverged (or when the session was not pre-computed: replay, shrinking).
+_PRE: dict = {}
+
+
+def _pre(case):
+    if "--replay" in sys.argv:
+        return None
+    k = case.get("tkey")
+    if k is None or k not in _PRE or k != case_key(case):
+        return None
+    return _PRE[k]
+
+
 def model_lines(case):
     k = case["kind"]
     if k == "api":
@@ -690,8 +707,9 @@ def model_lines(case):
     if k == "call":
         return model_lines_call(case)
     if k == "keys":
-        if case.get("tkey") == case_key(case) and case.get("trace") is not None:
-            return case["trace"]
+        p = _pre(case)
+        if p is not None and not p["div"]:
+            return []
         return run_keys(case)["model"]
     raise ValueError(k)
 
@@ -703,11 +721,10 @@ def impl_lines(case):
     if k == "call":
         return run_call(case)[0]
     if k == "keys":
-        r = run_keys(case)
-        if case.get("tkey") == case_key(case) and case.get("trace") is not None and case["trace"] != r["model"]:
-            # the editor did not repeat the API calls it made when the case was generated
-            return ["nondeterministic-trace"] + r["impl"]
-        return r["impl"]
+        p = _pre(case)
+        if p is not None and not p["div"]:
+            return []
+        return run_keys(case)["impl"]
     raise ValueError(k)
 
 
@@ -718,7 +735,8 @@ def oracle(case):
     elif k == "call":
         v = run_call(case)[1]
     else:
-        v = run_keys(case)["viol"]
+        p = _pre(case)
+        v = p["viol"] if p is not None else run_keys(case)["viol"]
     seen, out = set(), []
     for x in v:
         if x["signature"] not in seen:
@@ -739,6 +757,7 @@ KEYS_NAMED = ["escape", "c-a", "c-b", "c-c", "c-d", "c-e", "c-f", "c-g", "c-h", 
               "c-left", "c-right", "c-up", "c-down", "c-home", "c-end", "c-delete", "s-delete", "c-insert", "s-insert",
               "c-s-left", "c-s-right", "c-s-home", "c-s-end", "f1", "f4", "<flush>", "<paste:p q\nr>", "<paste:>"]
 ALL_KEYS = KEYS_PRINT + KEYS_NAMED
+PAIR_KEYS = list("aw (\"'05$^%}>~@qdcyipuJGgjlefFtrRsoOvV/?*;|IACDxX.") + KEYS_NAMED
 HISTS = [[], ["one", "two words"], ["a\nb", "", "x  y", "世界 (z)"]]
 CLIPS = [(None, "CHARACTERS"), ("clip", "CHARACTERS"), ("li\nne", "CHARACTERS"), ("", "CHARACTERS"),
          ("whole line", "LINES"), ("bl\nck", "BLOCK")]
@@ -807,19 +826,23 @@ def gen_keys_cases(tier, rng):
     for name, vi in states:
         for doc in docs3:
             for ro in (False, True):
-                if ro and doc != docs3[0]:
+                if ro and (doc != docs3[0] or name in ("vi-visual", "vi-op", "vi-ins")):
+                    continue
+                if tier == "quick" and doc != docs3[0] and not (doc == "" and name in ("vi-nav", "emacs")):
                     continue
                 for kk in ALL_KEYS:
                     out.append(keys_case(vi, True, ro, doc, min(1, len(doc)), HISTS[1], CLIPS[1],
                                          PREFIXES[name] + [kk] + (["escape"] if vi else [])))
     if tier == "thorough":
-        # every ordered pair of bound keys from three states
+        # every ordered pair of keys from three states (first key of the insert states: named keys and a
+        # few printable ones -- the other printable keys only self-insert there)
         for name, vi in (("vi-nav", True), ("vi-ins", True), ("emacs", False)):
-            for k1 in ALL_KEYS:
-                for k2 in ALL_KEYS:
+            first = PAIR_KEYS if name == "vi-nav" else KEYS_NAMED + list("a (\"5.")
+            for k1 in first:
+                for k2 in PAIR_KEYS:
                     out.append(keys_case(vi, True, False, "ab cd\n\n世 x", 1, HISTS[1], CLIPS[1],
                                          PREFIXES[name] + [k1, k2]))
-    nrand = 1500 if tier == "quick" else 30000
+    nrand = 1200 if tier == "quick" else 20000
     for _ in range(nrand):
         vi = rng.random() < 0.65
         ml = rng.random() < 0.5
@@ -836,32 +859,43 @@ def gen_keys_cases(tier, rng):
     return out
 
 
-def _trace_worker(chunk):
-    res = []
+def _keys_worker(chunk):
+    """real editor + Lean driver + comparison for a chunk of key sessions; returns small verdicts"""
+    runs, lines, spans = [], [], []
     for c in chunk:
         try:
             r = run_keys(c)
-            res.append(r["model"])
-        except Exception as e:  # harness problem: let the main pass report it
-            res.append(None)
+        except Exception as e:  # harness problem: reported as a divergence by the main pass
+            r = {"model": ["harness-exception"], "impl": ["harness-exception:" + repr(e)[:200]], "viol": [],
+                 "stats": {"keys": 0, "prims": 0, "hang": 0, "done": 0, "handlers": 0}}
+        spans.append((len(lines), len(r["model"])))
+        lines += r["model"]
+        runs.append(r)
+    try:
+        mout = core.run_driver(DRIVER, lines)
+    except Exception:
+        mout = None
+    res = []
+    for r, (a, n) in zip(runs, spans):
+        div = mout is None or mout[a:a + n] != r["impl"]
+        res.append({"div": div, "viol": r["viol"], "stats": r["stats"], "nlines": n})
     return res
 
 
-def attach_traces(cases):
-    """run every key session once (in a pool) to learn which API calls the real handlers make"""
+def precompute_keys(cases):
+    """run every key session once (worker pool) and remember the verdicts in `_PRE`"""
     procs = int(os.environ.get("VERIF_PROCS", "0")) or min(16, os.cpu_count() or 4)
     if len(cases) < 32 or procs == 1:
-        traces = _trace_worker(cases)
+        res = _keys_worker(cases)
     else:
         import multiprocessing as mp
-        n = max(1, min(len(cases) // (procs * 4), 500))
+        n = max(1, min(len(cases) // (procs * 4), 400))
         chunks = [cases[i:i + n] for i in range(0, len(cases), n)]
         with mp.get_context("fork").Pool(procs) as pool:
-            traces = [t for r in pool.map(_trace_worker, chunks) for t in r]
-    for c, t in zip(cases, traces):
-        if t is not None:
-            c["trace"] = t
-            c["tkey"] = case_key(c)
+            res = [t for r in pool.map(_keys_worker, chunks) for t in r]
+    for c, r in zip(cases, res):
+        c["tkey"] = case_key(c)
+        _PRE[c["tkey"]] = r
     return cases
 
 
@@ -1054,7 +1088,7 @@ def gen_call_cases(tier, rng):
 
 def cases(tier, rng):
     out = list(gen_api_cases(tier, rng)) + list(gen_call_cases(tier, rng))
-    out += attach_traces(gen_keys_cases(tier, rng))
+    out += precompute_keys(gen_keys_cases(tier, rng))
     return out
 
 
@@ -1066,28 +1100,39 @@ def sample_view(case):
     if case["kind"] == "api" and case.get("fresh"):
         c["ops"] = case["ops"][:4] + [f"... {len(case['ops'])} single ops, each from a fresh init"]
     if case["kind"] == "keys":
-        c["api_calls_replayed_on_the_model"] = len(case.get("trace") or [])
+        p = _PRE.get(case.get("tkey"))
+        if p:
+            c["api_calls_replayed_on_the_model"] = p["stats"]["prims"]
     return c
 
 
 def nontrivial(case):
     if case["kind"] == "keys":
-        return len(case.get("trace") or []) > 2 + 2 * len(case["ops"])  # at least one API call was made
+        p = _PRE.get(case.get("tkey"))
+        return bool(p) and p["stats"]["prims"] > 0  # at least one API call was made by a handler
     return len(case["ops"]) > 0
 
 
 def distribution(cases_):
     d = {"kind": {}, "keys_mode": {}, "keys_len": {}, "api_ops": {},
          "search": {"note": "the key-session part is SEARCH (exploration of the real editor), not proof",
-                    "key_sessions": 0, "keys_fed": 0, "api_calls_traced": 0, "read_only_sessions": 0,
+                    "key_sessions": 0, "keys_fed": 0, "handler_calls": 0, "api_calls_traced": 0,
+                    "model_lines_replayed": 0, "sessions_accepted": 0, "sessions_cut_by_watchdog": 0,
+                    "read_only_sessions": 0,
                     "multiline_sessions": 0, "vi_sessions": 0, "emacs_sessions": 0}}
     s = d["search"]
     for c in cases_:
         d["kind"][c["kind"]] = d["kind"].get(c["kind"], 0) + 1
         if c["kind"] == "keys":
             s["key_sessions"] += 1
-            s["keys_fed"] += len(c["ops"])
-            s["api_calls_traced"] += max(0, len(c.get("trace") or []) - 2 - 2 * len(c["ops"]))
+            p = _PRE.get(c.get("tkey"))
+            if p:
+                s["keys_fed"] += p["stats"]["keys"]
+                s["handler_calls"] += p["stats"]["handlers"]
+                s["api_calls_traced"] += p["stats"]["prims"]
+                s["model_lines_replayed"] += p["nlines"]
+                s["sessions_accepted"] += p["stats"]["done"]
+                s["sessions_cut_by_watchdog"] += p["stats"]["hang"]
             s["read_only_sessions"] += int(bool(c["ro"]))
             s["multiline_sessions"] += int(bool(c["ml"]))
             s["vi_sessions" if c["vi"] else "emacs_sessions"] += 1
@@ -1108,6 +1153,10 @@ def _patch_evidence():
         dist = ev["coverage"].get("distribution", {})
         if "search" in dist:
             ev["coverage"]["search"] = dist["search"]
+            ev["coverage"]["correspondence"]["model_lines"] += dist["search"]["model_lines_replayed"]
+            ev["coverage"]["correspondence"]["note"] = (
+                "key sessions are replayed on the model inside the generating worker; their "
+                f"{dist['search']['model_lines_replayed']} protocol lines are included in model_lines")
             ev["coverage"]["level_detail"] = "proof (partial): choke points proved, key state machine searched"
             core.write_json(p, ev)
     except Exception:
